@@ -715,11 +715,26 @@ def _no_answer_aborts(run, mod, F, cfg, ys, world):
         # next node must be test `<target> is not None` with T -> return
         nxt = [m for (l, m) in y.node.succ if l != "exc"]
         ok = False
+        # (a flag kept for the caller - `ok = rsp is None` - may stand
+        # between the answer and its test)
+        seen_ = set()
+        while len(nxt) == 1 and nxt[0].kind == "stmt" and isinstance(
+                nxt[0].ast, ast.Assign) and nxt[0].id not in seen_ and \
+                not any(isinstance(x, (ast.Yield, ast.YieldFrom, ast.Call))
+                        for x in ast.walk(nxt[0].ast.value)):
+            seen_.add(nxt[0].id)
+            nxt = [m for (l, m) in nxt[0].succ if l != "exc"]
         for m in nxt:
-            if m.kind == "test" and isinstance(m.ast, ast.Compare) and \
-                    unparse(m.ast) in ("%s is not None" % y.target,
-                                       "%s is None" % y.target):
-                neg = unparse(m.ast).endswith("is not None")
+            ta = m.ast
+            flip = False
+            while m.kind == "test" and isinstance(ta, ast.UnaryOp) and \
+                    isinstance(ta.op, ast.Not):
+                ta = ta.operand
+                flip = not flip
+            if m.kind == "test" and isinstance(ta, ast.Compare) and \
+                    unparse(ta) in ("%s is not None" % y.target,
+                                    "%s is None" % y.target):
+                neg = unparse(ta).endswith("is not None") != flip
                 for (l, t) in m.succ:
                     if (l == "T") == neg and t.kind == "stmt" and isinstance(
                             t.ast, (ast.Return, ast.Raise)):
@@ -759,8 +774,23 @@ def _check_schemes(run, world, mod, F, cfg, ys, fn):
     first = min((y.node.lineno for y in ys), default=0)
     val = None
     from .. import astq as _astq
+    def _after_a_yield(node):
+        # can `node` be reached from some yield of the sequence?
+        seen_, stack_ = set(), [m_ for y_ in ys for (l_, m_) in y_.node.succ]
+        while stack_:
+            x_ = stack_.pop()
+            if x_.id in seen_:
+                continue
+            seen_.add(x_.id)
+            if x_ is node:
+                return True
+            stack_ += [m_ for (l_, m_) in x_.succ]
+        return False
     for n in cfg.reachable:
-        if n.kind == "stmt" and n.lineno < first:
+        # "before the first command" on the flow graph, not by line number
+        # (statements of an inlined helper carry the helper's lines)
+        if n.kind == "stmt" and not _after_a_yield(n) and not any(
+                y_.node is n for y_ in ys):
             for c in _walk_no_nested(n.ast):
                 if isinstance(c, ast.Call):
                     k = world.resolve_class(SEQ, c.func)
